@@ -124,7 +124,7 @@ fn main() {
 
     // ------------------------------------------------------------ unit level
     let engine = rt.block_on(fresh_engine());
-    let n_unit = if thorough { 60_000 } else { 5_000 };
+    let n_unit = if thorough { 60_000 } else { 8_000 };
     let mut rng = Rng::new(args.seed);
     let mut cases: Vec<(String, UnitCase)> = unit_corpus().into_iter().map(|c| ("corpus".to_string(), c)).collect();
     for _ in 0..n_unit {
